@@ -12,8 +12,9 @@ Definition roots_ok (s : state) : Prop :=
 
 (* the histories the theorem covers: every operation whose action list brings in no caller-owned / class-owned
    object by reference; all copy routes; instantiation with an immutable (or unshared) span.
-   Excluded on purpose (they DO share, see HeapExamples): Linker(submodels) with existing models, reindex,
-   tracing with a class-level TRACE_VARIABLES list, a span list handed to two constructors. *)
+   reindex (any span argument: since fix af303e7 it is deep-copied; object cells too since 28b2a9a).
+   Excluded on purpose (they DO share, see HeapExamples): Linker(submodels) with existing models, a span list handed to two
+   constructors. *)
 Definition event_ok (e : event) : bool :=
   match e with
   | EActs _ acts => forallb (fun a => negb (act_leaky a)) acts
@@ -21,7 +22,7 @@ Definition event_ok (e : event) : bool :=
   | ELinkerCopy _ => true
   | EInit _ a => negb (leaky (ia_span a)) && (match ia_linker a with None => true | Some _ => false end)
   | ELinkerInit _ _ _ => false
-  | EReindex _ _ _ _ _ => false
+  | EReindex _ _ _ _ _ => true
   end.
 
 Definition receiver (e : event) : option nat := match e with EActs i _ => Some i | _ => None end.
@@ -121,6 +122,13 @@ Proof.
     destruct (init_M_spec (length (sh s)) _ _ _ _ _ _ _ In_ (proj1 RO) (le_n _) (closed_above_len _) IA) as (W' & C & -> & L & U).
     destruct (add_new_root s h' (length (sh s)) RO W' C ltac:(lia) U) as (RO' & Old).
     split; [exact RO'|]. split; [exists [length (sh s)]; reflexivity|].
+    intros j rj Hj _. simpl. apply Old. eapply nth_error_In; eauto.
+  - (* reindex *)
+    destruct (nth_error (sroots s) i) as [r|] eqn:Er; [|exact Triv].
+    destruct (reindex_M K (sh s) r span n' positions fills) as [[h' r']|] eqn:Cp; [|exact Triv].
+    destruct (reindex_M_spec _ _ _ _ _ _ _ _ _ Cp (proj1 RO)) as (W' & C & R & U).
+    destruct (add_new_root s h' r' RO W' C R U) as (RO' & Old).
+    split; [exact RO'|]. split; [exists [r']; reflexivity|].
     intros j rj Hj _. simpl. apply Old. eapply nth_error_In; eauto.
 Qed.
 
